@@ -21,7 +21,7 @@ RULE = ("well-formed documents: 1- and 2-module tuples over 24 module variants x
         "from the tree and from YAML text and compared with the definition-level model. Fault enumeration: for every base document every site of every "
         "defect class (unknown module in a net at each position, weight 0/-1, area 0/-2 scalar and per region, soft without area, hard with area, hard "
         "without rectangles, hard with overlapping rectangles, unknown attribute, invalid module name, one-pin net [A] and [A, w], rectangle width/height "
-        "0 or negative). Non-trivial = fault-injected documents + well-formed documents with rectangles or nets; distinct by construction.")
+        "0 or negative); 1-module documents and 2-module documents with one net also in two other units (x 1e-4, x 100000.3) with the geometric defect classes. Non-trivial = fault-injected documents + well-formed documents with rectangles or nets; distinct by construction.")
 ASSUMPTIONS = ["derived numbers compared with relative 1e-9", "wire length is only defined (and compared) when every net member has a centre"]
 BOUNDS = {'quick': 'k<=2 module tuples complete (all net sets for pairs over the 9-variant sub-alphabet, reduced net sets otherwise); faults on all 1-module documents and on 2-module documents with one net', 'thorough': 'k=3 over 14 variants; faults on 3-module documents too'}
 TECHNIQUE = "exhaustive fault enumeration: every (defect class x site) injected into every base document, plus exhaustive sweep of well-formed documents against a definition-level reference"
@@ -184,13 +184,39 @@ def faults(doc):
                         yield 'non-positive-rectangle-size', f'{name}.rect{ri}[{comp}]={bad}', d
 
 
+# the same documents in other units: x 1e-4 (a design written in metres instead of 0.1 mm) and x 100000.3 (database units,
+# decimal): tolerances that are not proportional to the scale of the design accept overlaps / reject abutting rectangles
+SCALES = {'small': 1e-4, 'big': 100000.3}
+GEOMETRIC = ('hard-overlapping-rectangles', 'non-positive-rectangle-size')
+
+
+def scale_doc(doc, s):
+    d = copy.deepcopy(doc)
+    for node in d['Modules'].values():
+        if 'area' in node:
+            node['area'] = {k: v * s * s for k, v in node['area'].items()} if isinstance(node['area'], dict) else node['area'] * s * s
+        if 'center' in node:
+            node['center'] = [node['center'][0] * s, node['center'][1] * s]
+        if 'rectangles' in node:
+            rl = node['rectangles']
+            if rl and isinstance(rl[0], (int, float)):
+                node['rectangles'] = [v * s for v in rl[:4]] + list(rl[4:])
+            else:
+                node['rectangles'] = [[v * s for v in r[:4]] + list(r[4:]) for r in rl]
+    return d
+
+
 def check_case(case, res):
     from frame.netlist.netlist import Netlist
     vt = tuple(case['mods'])
     nets = [(tuple(m), w) for m, w in case['nets']]
     doc = nd.build_doc(vt, nets)
+    if case.get('scale'):
+        doc = scale_doc(doc, SCALES[case['scale']])
     names = [nd.VARIANTS[i][0] for i in vt]
     attrs = dict(variants=names, nnets=len(nets))
+    if case.get('scale'):
+        attrs['scale'] = case['scale']
     if 'fault' in case:
         cls, site = case['fault']
         hit = [d for (c, s, d) in faults(doc) if c == cls and s == site]
@@ -229,6 +255,12 @@ def run_shard(shard, tier, res):
                 doc = nd.build_doc(vt, nets)
                 for (cls, site, _) in faults(doc):
                     check_case(dict(case, fault=[cls, site]), res)
+            if (k == 1 and j == 0) or (k == 2 and full and j == 1):
+                for sc in SCALES:
+                    check_case(dict(case, scale=sc), res)
+                    for (cls, site, _) in faults(nd.build_doc(vt, nets)):
+                        if cls in GEOMETRIC:
+                            check_case(dict(case, scale=sc, fault=[cls, site]), res)
     res.samples.append(dict(mods=list(tl[-1]), nets=[], fault=['unknown-attribute', 'M0']))
 
 
